@@ -227,6 +227,44 @@ pub fn run(mut run: Run) -> i32 {
             }
         });
     }
+    // isolated points and line ends within a few ulps of a slanted polygon edge (the point-in-area location behind relate's isolated-component
+    // labelling): every point of an ulp window, the ring written in both directions, both operand orders; truth from exact big-integer point location
+    {
+        use crate::bigf::{self, next_up};
+        use geo::{Coord, Geometry, LineString, Point, Polygon};
+        let tris: Vec<[(f64, f64); 3]> = vec![[(-12.0, -12.0), (24.0, -12.0), (24.0, 24.0)], [(0.1, 0.3), (1234567.9, 0.3), (1234567.9, 7654321.3)], [(-7.0, -21.0), (0.0, -210.0), (-70.0, -210.0)]];
+        let centres: Vec<(f64, f64)> = vec![(0.5, 0.5), (617284.0, 3827160.8), (-14.0, -42.0)];
+        let w: i64 = run.ctx.pick(24, 96);
+        let ww = (w * w) as usize;
+        run.stage("point-near-slanted-edge", tris.len() * ww * 2, |idx, acc| {
+            let rev = idx % 2 == 1;
+            let (ti, k) = ((idx / 2) / ww, ((idx / 2) % ww) as i64);
+            let (i, j) = (k / w - w / 2, k % w - w / 2);
+            let c = (next_up(centres[ti].0, i), next_up(centres[ti].1, j));
+            let t = tris[ti];
+            let pos = bigf::point_in_ring(&t, c); // 0 outside, 1 boundary, 2 inside
+            let mut ring = vec![t[0], t[1], t[2], t[0]];
+            if rev {
+                ring.reverse();
+            }
+            let pg = Geometry::Polygon(Polygon::new(LineString::from(ring), vec![]));
+            let pt = Geometry::Point(Point(Coord { x: c.0, y: c.1 }));
+            let (want_pa, want_ap) = match pos {
+                2 => ("0FFFFF212", "0F2FF1FF2"),
+                1 => ("F0FFFF212", "FF20F1FF2"),
+                _ => ("FF0FFF212", "FF2FF10F2"),
+            };
+            acc.class(format!("point-near-edge {} pos{} rev{}", ti, pos, rev));
+            acc.sample(idx, || json!({"polygon": format!("{:?}", pg), "point": [c.0, c.1], "exact_position": pos}));
+            for (what, got, want) in [("Point x Polygon", guard(|| relate_concrete(&pt, &pg)), want_pa), ("Polygon x Point", guard(|| relate_concrete(&pg, &pt)), want_ap)] {
+                acc.evals += 1;
+                let got = got.unwrap_or_else(|e| format!("panic:{}", e));
+                if got != want {
+                    acc.viol(format!("relate of a point within a few ulps of a slanted polygon edge: {} true={} got={}", what, want, got), idx, || json!({"polygon": format!("{:?}", pg), "point": [c.0, c.1], "bits": format!("{:016x} {:016x}", c.0.to_bits(), c.1.to_bits()), "true": want, "got": got}));
+                }
+            }
+        });
+    }
     // variant pass: the same point sets written differently
     let vstride = run.ctx.pick(9, 2);
     let base: Vec<&Shape> = shapes
